@@ -351,7 +351,8 @@ def pickle_rules(model, R):
     R.check(bool(elts) and not linked, 'PICKLE-DEPTH', lg, r[0] if r else lg.node, 'Lattice state holds no linked Concept objects',
             '(self._context, self._tolist())',
             src(r[0]) if r else '', extra={'consequence': 'Concept objects reference each other through neighbour tuples and have no flat reducer: pickle recurses '
-                                                              'along neighbour chains and raises RecursionError for lattices of a few hundred concepts'})
+                                                              'along neighbour chains and raises RecursionError for lattices of a few hundred concepts'},
+            strict=True if linked else None)
     ok_state = [src(e) for e in elts] == ['self._context', 'self._tolist()']
     unp = [s for s in ls.body if isinstance(s, ast.Assign) and name_is(s.value, ls.params[1]) and isinstance(s.targets[0], ast.Tuple)]
     ok = False
